@@ -155,7 +155,9 @@ def spline_case(rng, order, d, n, ratio=None, t0=None, mode=None, with_grad=True
     c = SplineCase(order, d, n, h, P, bc, t0=t0, mode=mode)
     # query order / API variant: 0 = value-returning getters; 1 = reversed order, reference overloads writing into
     # caller-owned buffers of the right shape that already hold data; 2 = every query twice, wrongly shaped buffers
-    c.qorder = rng.choice([0, 0, 1, 1, 2])
+    c.qorder = rng.choice([0, 0, 1, 1, 2, 3])    # 3 = as 1, and propagateGrad called in place (its input lives in its output)
+    # + 10 * build variant: 0 direct, 1 through the object's own members (aliasing arguments), 2 moved into place, 3 copied
+    c.qorder += 10 * rng.choice([0, 0, 0, 1, 2, 3])
     if with_grad:
         c.gC, c.gT, k = upstream(rng, order, n, d, gkind)
         c.meta['gkind'] = k
